@@ -63,7 +63,10 @@ var intPool = []int{math.MinInt64, -3, -1, 0, 1, 2, 7, math.MaxInt64}
 var floatPool = []float64{nanA, math.Inf(-1), -2.5, math.Copysign(0, -1), 5e-324, 1.5, 1e300, math.Inf(1)}
 var strPool = []*string{nil, sp(""), sp("a"), sp("ab"), sp("b"), sp("\x80"), sp("\xc3\xa9"), sp("\xff")}
 
-var patterns = []string{"random", "random", "random", "sorted", "reversed", "organpipe", "allequal", "sawtooth"}
+// strings of 8 and more bytes that differ at several positions (a comparison word by word must agree with the byte order)
+var longStrPool = []*string{nil, sp("aaaaaaaa"), sp("aaaaaaab"), sp("aaaaaaba"), sp("aaaaaaba\x00"), sp("abaaaaaa"), sp("baaaaaaa"), sp("baaaaaaab\xc3\xa9")}
+
+var patterns = []string{"random", "random", "random", "sorted", "reversed", "organpipe", "allequal", "sawtooth", "lastlow", "oneoff"}
 
 // levels produces n values in [0,alpha) following the pattern.
 func levels(r *hlib.Rng, n, alpha int, pattern string) []int {
@@ -86,11 +89,25 @@ func levels(r *hlib.Rng, n, alpha int, pattern string) []int {
 			if l[i] >= alpha {
 				l[i] = alpha - 1
 			}
+		case "lastlow": // ascending, only the last element out of place
+			l[i] = i * alpha / n
+			if i == n-1 {
+				l[i] = 0
+				if alpha > 1 && n > 1 && l[n-2] == 0 {
+					l[n-2] = alpha - 1
+				}
+			}
+		case "oneoff": // ascending with one element (position c2) moved
+			l[i] = i * alpha / n
 		case "allequal":
 			l[i] = c
 		default: // sawtooth
 			l[i] = i % alpha
 		}
+	}
+	if pattern == "oneoff" && n > 1 {
+		a, b := r.Intn(n), r.Intn(n)
+		l[a], l[b] = l[b], l[a]
 	}
 	return l
 }
@@ -175,9 +192,13 @@ func genKey(r *hlib.Rng, n int, kind int) key {
 				}
 			}
 		} else {
-			sel := subset(r, len(strPool), alpha)
+			pool := strPool
+			if r.Chance(1, 3) {
+				pool = longStrPool
+			}
+			sel := subset(r, len(pool), alpha)
 			for i, l := range lv {
-				k.strs[i] = strPool[sel[l]]
+				k.strs[i] = pool[sel[l]]
 			}
 		}
 	case kEnum:
@@ -725,7 +746,7 @@ func main() {
 	s.Header = "From Coq Require Import Uint63.\nFrom QF Require Import Base.Prelude Base.CaseLib Model.Frame Model.Sort Corr.SortCorr.\n"
 	s.CaseType = "sort_case"
 	s.CheckFn = "check_sort"
-	s.Rule = "families hook (real Comparables of int/float/bool/string/enum columns + real internal/sort on identity / permuted / reversed / subset / repeated-id indexes), api (qframe.New + Sort + MustIntView(rowid)), adversary (McIlroy antiquicksort behind a FuncKey, final ranks replayed), matrix (arbitrary inconsistent Less table), frame (QFrame.Sort on derived frames: physical dump of receiver and result vs Model/SortFrame.v sort_frame + oracle on whole rows / spec order / identical columns; Err receivers, unknown, repeated and zero orders). Sizes 0..14, 39..42, 15..38, 43..300, 1000 (thorough 3000); 1-3 keys, all Reverse x NullLast, alphabets of 1-4 (sometimes 5-8, sometimes n) values incl. NaN payloads, +-0, +-Inf, nil, empty string, bytes >= 0x80, enum declared order different from byte order; data patterns random / sorted / reversed / organ-pipe / all-equal / sawtooth. Non-trivial = index length >= 2; distinct by Coq term."
+	s.Rule = "families hook (real Comparables of int/float/bool/string/enum columns + real internal/sort on identity / permuted / reversed / subset / repeated-id indexes), api (qframe.New + Sort + MustIntView(rowid)), adversary (McIlroy antiquicksort behind a FuncKey, final ranks replayed), matrix (arbitrary inconsistent Less table), frame (QFrame.Sort on derived frames: physical dump of receiver and result vs Model/SortFrame.v sort_frame + oracle on whole rows / spec order / identical columns; Err receivers, unknown, repeated and zero orders). Sizes 0..14, 39..42, 15..38, 43..300, 1000 (thorough 3000); 1-3 keys, all Reverse x NullLast, alphabets of 1-4 (sometimes 5-8, sometimes n) values incl. NaN payloads, +-0, +-Inf, nil, empty string, bytes >= 0x80, enum declared order different from byte order; data patterns random / sorted / reversed / organ-pipe / all-equal / sawtooth / ascending with only the last element low / ascending with one swap; strings of 8+ bytes differing at several positions. Non-trivial = index length >= 2; distinct by Coq term."
 	per := cfg.N/14 + 1
 	if per < 20 {
 		per = 20
